@@ -5,6 +5,9 @@ HERE = os.path.dirname(os.path.dirname(os.path.abspath(__file__)))
 ALL = ["C%02d" % i for i in range(1, 21)]
 HYD_NOTE = "Trusted: TLC; Dec.tla exact decimal arithmetic (self-tested by setup); recorded floats are logged at their shortest round-trip decimal; tolerances derived from the solver criterion max|residual| < 1e-6 with factor 2; non-converged runs are counted, not asserted."
 CLAIMED = {
+ "C15": dict(cat="model_checking", tech="TLC trace validation of aml.Model evaluation events against exact rational evaluation and symbolic differentiation (Aml.tla); TLC model checking of leaf reference counting (AmlReg.tla)",
+   text="Aml.tla defines Eval and the partial derivative of expression trees (+ - * / ** neg abs sign, if/else, inequalities, conditional constraints) in exact rational arithmetic, with transcendental functions and non-integer powers uninterpreted (table checked to be taken at the spec's own argument). Seeded random histories on a real aml.Model (extension rebuilt from source) build square systems with reflected operators, constant folding cases, nested powers, shared sub-expressions and boundary values, evaluate, replace constraints and change values; TLC judges every evaluation event: residuals, every Jacobian entry, index bijections, live variables. AmlReg.tla: TLC checks refcount = number of referencing constraints over all register/remove histories in scope.",
+   note="Trusted: TLC, Dec.tla; libm values of exp/log/sin/cos/tan/asin/acos/atan and non-integer powers at a point.", ref="DESIGN.md section 5 C15"),
  "C14": dict(cat="model_checking", tech="TLA+ abstract data type of the model (Registry.tla): TLC checks its invariants and generates edit histories that are replayed on a real WaterNetworkModel with the views compared after every operation",
    text="Registry.tla holds the primary data and defines every view (name lists, typed indexes, end nodes, usage records) declaratively, with the refusal rules of remove_*. TLC checks EndNodesExist/RefsExist/TypedPartition on all reachable states of a small universe, enumerates every history of length 2 (3 in the thorough tier) and samples long histories with -simulate; each is performed on the real model and after every operation the real views (all typed iterators fully iterated, counts, get_links_for_node, to_graph, get_usage/orphaned, describe) must equal the specified view and the refusal outcome must match.",
    note="Trusted: TLC; operations are applied with valid arguments through the public API; universe of 3 node / 2 link / 2 pattern / 2 curve / 1 source / 1 control names.", ref="DESIGN.md section 5 C14"),
